@@ -3,19 +3,19 @@ CONSTANTS
   Threshold = 1
   MaxRedirect = 65535
   MaxHeader = 255
-  Deviations = {}
+  Deviations = {"OrphanLigLabelKept"}
   Bug = ""
   Mode = "lk"
   NC = 2
-  MaxBody = 3
-  MaxPrefix = 2
-  SkipBytes = {0, 128}
+  MaxBody = 2
+  MaxPrefix = 0
+  SkipBytes = {128}
   Variants = {0}
   DimVals = {0, 3}
   MaxW = 2
   MaxH = 1
   DomT = 1
   PadK = 0
-  Waive = {}
-INVARIANTS Idempotent SameFont SameChains Fits Closed MainLoopSame PlWellFormed
+  Waive = {"orphans"}
+INVARIANTS Idempotent
 CHECK_DEADLOCK FALSE
